@@ -200,6 +200,17 @@ def run_case(case, ctx):
                 return
             except Exception:
                 pass
+            if case["entry"] == "notify":
+                # notifications that are not a (weight, value) data event for this statistic
+                for what, ev in (("plain-data-event", Event(StatEvents.DATA_EVENT, (1.0, 2.0))), ("list-content", Event(StatEvents.WEIGHT_DATA_EVENT, [1.0, 2.0])),
+                                 ("triple", Event(StatEvents.WEIGHT_DATA_EVENT, (1.0, 2.0, 3.0))), ("scalar", Event(StatEvents.WEIGHT_DATA_EVENT, 2.0))):
+                    ctx.count("malformed_notifications")
+                    try:
+                        t.notify(ev)
+                        ctx.viol(f"invalid-observation-accepted:notify:{what}", where)
+                        return
+                    except Exception:
+                        pass
             if fx(list(_getters(ctx, t, where).values())) != before:
                 ctx.viol("rejected-input-changed-getters", where)
                 return
